@@ -73,6 +73,20 @@ def gen_cases(tier, seed):
             else:
                 c["lc"] = sc.fl(rng.choice([0.2, 0.8]))
             add(c)
+    # ladders that start far below the usual range ("any start"): at lambda 1e-12 .. 1e-9 the fit term is tiny but not zero,
+    # the V-curve minimum still lies where it lies
+    for k in range(6 if quick else 30):
+        variant = ["vp", "v", "vp"][k % 3]
+        n = rng.choice([8, 10, 12])
+        y = gaps(rng, series(rng, n, rng.choice(["noise", "season"])), -3000, rng.choice([0.0, 0.1]))
+        start, step = [(-12.0, 2.0), (-10.0, 1.5), (-12.0, 1.0)][k % 3]
+        ng = 8 if step > 1.0 else 15
+        c = {"variant": variant, "y": [str(v) for v in y], "nd": "-3000", "api": ["kernel", "accessor"][k % 2], "grid": [sc.fl(start + j * step) for j in range(ng)], "family": "lowladder"}
+        if variant == "vp":
+            c["p"] = sc.fl(rng.choice([0.9, 0.8, 0.6]))
+        if c["api"] == "accessor":
+            c["dims"] = ["time", "y", "x"]
+        add(c)
     # too few valid cells
     for nv in (0, 1):
         for variant in ("v", "vp", "vplc"):
